@@ -404,10 +404,16 @@ class Ctx:
 SHARED_PKGS = ("common", "sqlh")
 
 
+def shared_pkgs():
+    """common, sqlh and every harness/lib* directory are library packages visible to all engines."""
+    hd = os.path.join(VERIF, "harness")
+    return sorted(set(SHARED_PKGS) | {n for n in os.listdir(hd) if n.startswith("lib") and os.path.isdir(os.path.join(hd, n))})
+
+
 def shared_mapping():
     """Library packages under /verif/harness that engines may import as github.com/dolthub/dolt/go/zz_verif/<name>."""
     m = {}
-    for name in SHARED_PKGS:
+    for name in shared_pkgs():
         d = os.path.join(VERIF, "harness", name)
         if os.path.isdir(d):
             for fn in os.listdir(d):
